@@ -17,12 +17,23 @@ Plan plan() { return g_cfg.tier ? Plan{16384, 1, 3000, 14, 48, 36, 400} : Plan{1
 struct PosTrace : verif::SyncHooks {
 	std::istream* is = nullptr;
 	std::vector<size_t> blockStarts, fieldStarts;
+	std::vector<size_t> insideLeadingFields;   // cut points strictly inside the first multi-byte fields of every block (counts, flags, references)
+	int fieldsInBlock = 0;
 	size_t pos() { is->clear(is->rdstate() & ~std::ios::eofbit); auto p = is->tellg(); return p < 0 ? (size_t)-1 : (size_t)p; }
-	void Block(bool reading, uint32_t, NiObject*) override { if (reading) blockStarts.push_back(pos()); }
-	void Field(bool reading, verif::FieldKind, size_t, void*, const std::type_info*) override { if (reading && fieldStarts.size() < 400000) fieldStarts.push_back(pos()); }
+	void Block(bool reading, uint32_t, NiObject*) override { if (reading) { blockStarts.push_back(pos()); fieldsInBlock = 0; } }
+	void Field(bool reading, verif::FieldKind, size_t sz, void*, const std::type_info*) override {
+		if (!reading) return;
+		size_t p = pos();
+		if (fieldStarts.size() < 400000) fieldStarts.push_back(p);
+		if (p != (size_t)-1 && (sz == 2 || sz == 4) && fieldsInBlock < 14 && blockStarts.size() <= 60) {
+			fieldsInBlock++;
+			insideLeadingFields.push_back(p + 1);
+			if (sz == 4) insideLeadingFields.push_back(p + 3);
+		}
+	}
 };
 
-std::vector<size_t> truncPoints(const std::string& bytes, const Plan& p, size_t budget, uint64_t seed) {
+std::vector<size_t> truncPoints(const std::string& bytes, const Plan& p, size_t budget, uint64_t seed, size_t structuralCap = 0) {
 	std::set<size_t> pts;
 	size_t n = bytes.size();
 	if (n <= p.smallLimit && budget >= n / p.smallStride) {
@@ -58,6 +69,19 @@ std::vector<size_t> truncPoints(const std::string& bytes, const Plan& p, size_t 
 		all.assign(thin.begin(), thin.end());
 		all.erase(std::unique(all.begin(), all.end()), all.end());
 	}
+	// a cut inside a count / flag / reference field leaves its low bytes from the file and its high bytes from the default value: the
+	// leading multi-byte fields of every block decide the layout of what follows.  On top of the budget: real files up to
+	// `structuralCap` of them (evenly thinned), other files a seeded sixth
+	if (structuralCap) {
+		std::vector<size_t> st;
+		for (auto x : tr.insideLeadingFields) if (x < n) st.push_back(x);
+		std::sort(st.begin(), st.end());
+		st.erase(std::unique(st.begin(), st.end()), st.end());
+		std::set<size_t> u(all.begin(), all.end());
+		if (st.size() <= structuralCap) u.insert(st.begin(), st.end());
+		else for (size_t k = 0; k < structuralCap; k++) u.insert(st[(size_t)(((double)k + rng.unit()) / (double)structuralCap * (double)st.size()) % st.size()]);
+		all.assign(u.begin(), u.end());
+	}
 	return all;
 }
 
@@ -92,7 +116,7 @@ void init() {
 		auto& e = g_files[fi];
 		bool real = e.name[0] == 'r', api = e.name[0] == 'a';
 		size_t budget = real ? (e.bytes.size() <= p.smallLimit ? e.bytes.size() / p.smallStride + 96 : p.largeBudget) : api ? p.apiBudget : p.synBudget;
-		e.points = truncPoints(e.bytes, p, budget, mix(g_cfg.seed, fi));
+		e.points = truncPoints(e.bytes, p, budget, mix(g_cfg.seed, fi), real ? (g_cfg.tier ? 4000 : 260) : api ? 60 : 12);
 		for (size_t k = 0; k < e.points.size(); k += CHUNK) g_cases.push_back({fi, k});
 	}
 }
